@@ -379,7 +379,8 @@ func ruleGeom(itv uint32) (interval, bucket uint64, independent bool) {
 	return I, I, true // a single bucket
 }
 
-func ruleInForce(x ruleT) bool { return !(x.Thr < 0) }
+// flow.IsValidRule: a negative or NaN threshold is rejected
+func ruleInForce(x ruleT) bool { return !(x.Thr < 0) && !math.IsNaN(x.Thr) }
 
 func winSum(adm []admT, res int, lo, hi uint64) uint64 {
 	var s uint64
